@@ -179,7 +179,7 @@ def _checkpoint(check: Check, aa: AtomicAnalysis):
       it = loops[0].iter
       srcs = fs.expand(it)
       for s in srcs:
-        listing = [x for x in ast.walk(s) if isinstance(x, ast.Call) and _is_repo_call(fs, x, getp)]
+        listing = [x for x in fs.deep_walk(s) if isinstance(x, ast.Call) and _is_repo_call(fs, x, getp)]
         if not listing:
           check.inconclusive('R-ORDER', save, txt(s), 'removal list is not derived from _get_checkpoint_paths')
           continue
